@@ -30,7 +30,7 @@ Inductive chan :=
   | ChError (p : prob)
   | ChPauli1 (px py pz : prob)
   | ChPauli2 (args : list prob)              (* the 15 arguments in the order pauli_channel_2_probs receives them *)
-  | ChCorrelated.                            (* finalize_correlated_error: table from the accumulated chain *)
+  | ChCorrelated (ps : list prob).           (* finalize_correlated_error: table from the accumulated chain *)
 
 Inductive op (Q : Type) :=
   | OSpider (c : colour) (q : Q) (e : expo)                 (* x_phase / z_phase *)
@@ -46,10 +46,11 @@ Inductive op (Q : Type) :=
   | OChan (c : chan)                                        (* channel_probs.append(...) *)
   | OBumpErr (n : Z)                                        (* num_error_bits += n *)
   | OCorrProb (p : prob)                                    (* correlated_error_probs.append(p); num_correlated_error_bits += 1 *)
-  | OIfLane (q : Q) (body : list (op Q)).                   (* if qubit in b.last_vertex: ... *)
+  | OIfLane (q : Q) (body : list (op Q))                    (* if qubit in b.last_vertex: ... *)
+  | OFinalize.                                              (* finalize_correlated_error (called by the parser) *)
 Arguments OSpider {Q}. Arguments OErr {Q}. Arguments OH {Q}. Arguments OCxCz {Q}. Arguments OSwap {Q}.
 Arguments OI {Q}. Arguments OMeas {Q}. Arguments OReset {Q}. Arguments OPhase {Q}. Arguments OPower {Q}.
-Arguments OChan {Q}. Arguments OBumpErr {Q}. Arguments OCorrProb {Q}. Arguments OIfLane {Q}.
+Arguments OChan {Q}. Arguments OBumpErr {Q}. Arguments OCorrProb {Q}. Arguments OIfLane {Q}. Arguments OFinalize {Q}.
 
 Fixpoint op_map {A B} (f : A -> B) (o : op A) : op B :=
   match o with
@@ -67,6 +68,7 @@ Fixpoint op_map {A B} (f : A -> B) (o : op A) : op B :=
   | OBumpErr n => OBumpErr n
   | OCorrProb p => OCorrProb p
   | OIfLane q body => OIfLane (f q) (map (op_map f) body)
+  | OFinalize => OFinalize
   end.
 
 (* ------------------------------------------------------------------------------------------------ *)
@@ -153,6 +155,14 @@ Definition do_err (n : nat) (b : bits) (s : lstate) (c : colour) (q : nat) (idx 
   let s := if bit (berr b) idx then setamp s (app1 n q (match c with CXc => mX | CZc => mZ end) (amp s)) else s in
   setcol s q c.
 
+(* finalize_correlated_error: c-bits become e-bits, the chain's table is appended *)
+Definition finalize_corr (s : lstate) : lstate :=
+  match ncorr s with
+  | O => s
+  | k => mkL (amp s) (scal s) (exists_ s) (colour_ s) (nrec s) (nsil s) (nerr s + k) O (recq s) (chans s ++ [ChCorrelated (corrp s)]) [] (ok s)
+  end.
+
+
 Fixpoint step (fuel : nat) (n : nat) (b : bits) (s : lstate) (o : op nat) : lstate :=
   match o with
   | OSpider c q e =>
@@ -216,15 +226,9 @@ Fixpoint step (fuel : nat) (n : nat) (b : bits) (s : lstate) (o : op nat) : lsta
       | O => fail s
       | S f => if nth q (exists_ s) false then fold_left (step f n b) body s else s
       end
+  | OFinalize => finalize_corr s
   end.
 Definition run (n : nat) (b : bits) (ops : list (op nat)) (s : lstate) : lstate := fold_left (step 8 n b) ops s.
-(* finalize_correlated_error: c-bits become e-bits, the chain's table is appended *)
-Definition finalize_corr (s : lstate) : lstate :=
-  match ncorr s with
-  | O => s
-  | k => mkL (amp s) (scal s) (exists_ s) (colour_ s) (nrec s) (nsil s) (nerr s + k) O (recq s) (chans s ++ [ChCorrelated]) [] (ok s)
-  end.
-
 Definition final_vec (s : lstate) : vec := vscale (scal s) (amp s).
 Definition norm2 (v : vec) : ep := fold_left (fun acc a => padd acc (pmul a (pconj a))) v p0.
 
